@@ -164,7 +164,7 @@ Definition slice_idx (len : nat) (v : option Z) (default : nat) : nat :=
   match v with
   | None => default
   | Some z => if (z <? 0)%Z then Z.to_nat (Z.max 0 (Z.of_nat len + z))
-              else Nat.min (Z.to_nat z) len
+              else Z.to_nat (Z.min z (Z.of_nat len))
   end.
 
 (* Python's own slice bounds for s[a:b] (both clamped into 0..len) *)
@@ -172,7 +172,7 @@ Definition py_bound (len : nat) (v : option Z) (default : nat) : nat :=
   match v with
   | None => default
   | Some z => if (z <? 0)%Z then Z.to_nat (Z.max 0 (Z.of_nat len + z))
-              else Nat.min (Z.to_nat z) len
+              else Z.to_nat (Z.min z (Z.of_nat len))
   end.
 
 (* ---------- S-expression trees: the wire format of the correspondence check ---------- *)
